@@ -288,6 +288,7 @@ func init() {
 		return "0"
 	}
 	gens["C01"] = genC01
+	gens["C01Lazy"] = genC01Lazy
 	gens["C02"] = genC02
 	gens["C16"] = genC16
 }
@@ -445,6 +446,19 @@ func genC01Scenario(r *Rng) (string, string) {
 	return cfg, strings.Join(g.evs, ";")
 }
 
+// genC01Lazy: the lazily built forms of single messages: metadata with / without @setDataFrame, malformed metadata, media
+func genC01Lazy(g *G) {
+	r := g.rng
+	for _, ts := range []int{0, 40, 16777214, 16777215, 16777216, 4294967295} {
+		for _, p := range [][]byte{c01Metadata(r, true), c01Metadata(r, false), {2, 0, 3, 'a', 'b', 'c'}, {2, 0}, {5}, r.Bytes(300)} {
+			g.L("lazy-metadata").run(fmt.Sprintf("lazy.msg 18 %d %s", ts, hx(p)))
+		}
+		for _, n := range []int{1, 5, 4095, 4096, 4097, 8192, 8193, 20000} {
+			g.L("lazy-media").run(fmt.Sprintf("lazy.msg %d %d %s", r.Pick(8, 9), ts, hx(r.Bytes(n))))
+		}
+	}
+}
+
 func genC01(g *G) {
 	r := g.rng
 	// boundary corpus: join instants relative to a fixed short stream
@@ -461,15 +475,7 @@ func genC01(g *G) {
 			}
 		}
 	}
-	// the lazily built forms of single messages: metadata with / without @setDataFrame, malformed metadata, media
-	for _, ts := range []int{0, 40, 16777214, 16777215, 16777216, 4294967295} {
-		for _, p := range [][]byte{c01Metadata(r, true), c01Metadata(r, false), {2, 0, 3, 'a', 'b', 'c'}, {2, 0}, {5}, r.Bytes(300)} {
-			g.L("lazy-metadata").run(fmt.Sprintf("lazy.msg 18 %d %s", ts, hx(p)))
-		}
-		for _, n := range []int{1, 5, 4095, 4096, 4097, 8192, 8193, 20000} {
-			g.L("lazy-media").run(fmt.Sprintf("lazy.msg %d %d %s", r.Pick(8, 9), ts, hx(r.Bytes(n))))
-		}
-	}
+	genC01Lazy(g)
 	for i := 0; i < g.scale(400, 20000); i++ {
 		cfg, evs := genC01Scenario(r)
 		g.L("random").run(fmt.Sprintf("grp.run %s %s", cfg, evs))
